@@ -55,7 +55,7 @@ def correspondence(ctx, model_ok, tmp):
     repo.basic_dimensions(b, instrument="J", detectors=(1, 2, 3))  # data-ID keys 11..13 are detectors 1..3 of instrument J
     reg = b.registry
     req, impl = [], []
-    n_hist = 20 if ctx.quick() else 500
+    n_hist = 20 if ctx.quick() else 320
     CT = {"R": CollectionType.RUN, "T": CollectionType.TAGGED, "C": CollectionType.CHAINED}
 
     def viol(what, key, replay):
